@@ -1,13 +1,18 @@
 BOUNDS = ('source pixel fully symbolic: all 2^8 gray8, 2^24 rgb8/bgr8, 2^32 rgba8/bgra8/argb8/abgr8 and 2^32 cmyk8 values are one solver query per law and per '
           'ordered pair of pixel types (8 pixel types = 4 colour spaces x every provided layout, 64 ordered pairs); monotonicity of rgb->gray in successor form '
-          'f(x) <= f(x with one channel + 1) (equivalent by a chain argument); rgb->gray one-unit bound in exact integers: |100*ms*y - md*(30r+59g+11b)| <= 100*max(ms,md) '
-          '(unit = one level of the coarser channel type); thorough tier: 16-bit and float32 ([0,1]) channels and mixed depths 8<->16, 8<->32f for the canonical layouts, '
+          'f(x) <= f(x with one channel + 1) (equivalent by a chain argument); rgb->gray one-unit bound |100*ms*y - md*(30r+59g+11b)| <= 100*max(ms,md) (ms, md channel maxima; unit = one level of the coarser channel type), for 8-bit sources proved in two steps: '
+          'A (solver, all 2^24 pixels) |16384*ms*y - md*(4915r+9667g+1802b)| <= (16384-113)*max(ms,md), B (static_assert) |100*(4915r+9667g+1802b) - 16384*(30r+59g+11b)| <= 11300; '
+          'rgb8 -> cmyk8 -> rgb8 within one level, one channel per query; thorough tier: 16-bit and float32 ([0,1]) channels and mixed depths 8<->16, 8<->32f for the canonical layouts, '
           'fully symbolic where the solver decides, otherwise stratified (upper byte of 16-bit channels / exponent of float channels concrete per query); '
-          'color_converted_view / copy_and_convert_pixels on a concrete 2x2 view (interleaved; planar rgb8/rgba8 sources) with symbolic contents, all 4 pixels')
+          'color_converted_view / copy_and_convert_pixels on a concrete 2x2 view (interleaved; planar rgb8/rgba8/cmyk8 sources) with symbolic contents, all 4 pixels '
+          '(rgb/rgba -> cmyk: one pixel position per query, quick tier 2 of the 4 positions per law for rgb8 -> cmyk8; bgra8/argb8/planar rgba8 -> gray8/cmyk8: source alpha concrete per query)')
 OUTSIDE = ('signed and 32-bit integer channel types, packed / bit-aligned (heterogeneous) pixels in colour conversion, user-defined colour spaces, layouts or converters; '
            'float32 channel values outside [0,1] or NaN; views larger than 2x2 (the per-pixel loop itself is C04); '
            'gray->cmyk maps gray black to cmyk (0,0,0,0) = white (FIXME in the code): the property text claims black/white preservation only between rgb, opaque rgba and cmyk, so it is not asserted; '
-           'thorough-tier queries listed as inconclusive in the evidence (float luminance / 16-bit cmyk round trip over the full value space)')
+           'rgb -> gray one-unit bound and monotonicity for 16-bit and float32 *sources* over the full value space (generic float path: x/max, three float multiplications, two additions, *max+0.5; '
+           'no verdict in 150 s even with two channels concrete and 16 symbolic bits in the third): 16-bit sources are spot-checked only (two channels concrete, 8 symbolic bits in the third), float32 sources not at all; '
+           'view agreement for deeper channels is checked for the data-movement pairs only (gray->rgba, rgba->rgba, rgb->rgb); '
+           'known thorough-tier finding: rgb16 -> cmyk16 -> rgb16 and rgb32f -> cmyk32f -> rgb32f differ from the original by up to 1.5 8-bit levels (8-bit quantisation + truncation in the rgb->cmyk scale step), the queries are kept and fail')
 ASSUMPTIONS = ['float32 channels are assumed to lie in [0,1]',
                'the oracle pairs channels by colour with semantic_at_c<K> (layout mapping itself is C05)',
                'cmyk black is any colour with k == max or c == m == y == max (the colours whose rendering 1-min(1,c(1-k)+k) is 0); cmyk white is (0,0,0,0)']
@@ -37,41 +42,116 @@ def entries(scs, dcs):
 
 def queries(tier, seed):
     qs = []
-    def add(name, defs, entry, params=None, t='quick', timeout=120, unwind=6, note=None, solvers=None):
-        qs.append(Q(name, 'C09/cc.cpp', entry, defs=defs, params=params or [0, 0, 0, 0, 0, 0], unwind=unwind, tier=t, timeout=timeout, note=note, solvers=solvers or ['minisat:25', 'kissat']))
-    def views(pair, defs, scs, dcs, vt):
+    def add(name, defs, entry, params=None, t='quick', timeout=120, unwind=6, note=None, solvers=None, heavy=0):
+        q = Q(name, 'C09/cc.cpp', entry, defs=defs, params=params or [0, 0, 0, 0, 0, 0], unwind=unwind, tier=t, timeout=timeout, note=note, solvers=solvers or ['minisat:25', 'kissat'])
+        q.heavy = heavy
+        qs.append(q)
+    def views(pair, defs, scs, dcs, vt, quick_positions=(0, 1, 2, 3)):
         # the rgb -> cmyk kernel goes through double (one division, three multiplications): "view result == color_convert result" is then an
-        # equivalence of two copies of that circuit; all four pixels in one query had no verdict in 240 s, one pixel per query takes ~90 s (kissat)
-        if dcs == CMYK and scs in (RGB, RGBA):
+        # equivalence of two copies of that circuit; all four pixels in one query had no verdict in 240 s, one pixel per query takes 90-130 s (kissat)
+        if dcs == CMYK and scs == RGBA and (defs['SRC_P'].split('::')[1][:4] in ('bgra', 'argb') or defs.get('VIEW_PLANAR')):
+            # for these layouts the compiler commutes the operands of the alpha multiplications on one side of the miter (multiplier commutativity on top
+            # of the double kernel): no verdict in 400 s per pixel.  Stratified: source alpha concrete per query (0xFF and a seeded value), one pixel per query.
             for pos in range(4):
-                t = vt if scs == RGB and not defs.get('VIEW_PLANAR') else 'thorough'
                 for e in ('ccv', 'ccp'):
-                    add('%s/%s_px%d' % (pair, e, pos), defs, 'h_' + e, params=[0, 0, 0, 0, 0, pos + 1], t=t, timeout=300, solvers=['kissat'], note='one pixel of the 2x2 view per query')
+                    for a in dict.fromkeys((0xFF, ((seed + 1) * 40503 >> 3) & 0xFF)):
+                        add('%s/%s_px%d/alpha%02x' % (pair, e, pos, a), defs, 'h_' + e, params=[8, 0, 0, 0, a, pos + 1], t='thorough', timeout=700, solvers=['kissat'],
+                            note='stratified: source alpha concrete; one pixel of the 2x2 view per query', heavy=2)
+        elif dcs == GRAY and scs == RGBA and defs['SRC_P'].split('::')[1][:4] in ('bgra', 'argb'):
+            # same operand commutation in front of the luminance sum: no verdict in 240 s; source alpha concrete per query, all four pixels
+            for e in ('ccv', 'ccp'):
+                for a in dict.fromkeys((0x00, 0xFF, 0x80, ((seed + 1) * 40503 >> 3) & 0xFF)):
+                    add('%s/%s/alpha%02x' % (pair, e, a), defs, 'h_' + e, params=[8, 0, 0, 0, a, 0], t='thorough', timeout=240, solvers=['kissat'], note='stratified: source alpha concrete')
+        elif dcs == CMYK and scs in (RGB, RGBA):
+            for pos in range(4):
+                for e in ('ccv', 'ccp'):
+                    t = vt if (scs == RGB and not defs.get('VIEW_PLANAR') and pos in quick_positions[e]) else 'thorough'
+                    add('%s/%s_px%d' % (pair, e, pos), defs, 'h_' + e, params=[0, 0, 0, 0, 0, pos + 1], t=t, timeout=400, solvers=['kissat'], note='one pixel of the 2x2 view per query', heavy=2)
         else:
-            add('%s/ccv' % pair, defs, 'h_ccv', t=vt, timeout=240)
-            add('%s/ccp' % pair, defs, 'h_ccp', t=vt, timeout=240)
+            # "view result == color_convert result" is a miter of two copies of the conversion kernel: kissat (congruence closure) decides it in
+            # seconds where minisat has no verdict in 100 s
+            add('%s/ccv' % pair, defs, 'h_ccv', t=vt, timeout=240, solvers=['kissat'])
+            add('%s/ccp' % pair, defs, 'h_ccp', t=vt, timeout=240, solvers=['kissat'])
+    def laws(pair, defs, scs, dcs, t='quick', depth8=True, timeout=120):
+        for e in entries(scs, dcs):
+            if e == 'h_gray_diag' and not depth8: continue      # claimed for 8-bit sources only
+            if e == 'h_lum_mono':
+                for k, c in enumerate(('red', 'green', 'blue')): add('%s/lum_mono_%s' % (pair, c), defs, e, params=[0, 0, 0, 0, 0, k], t=t, timeout=timeout)
+            elif e == 'h_cmyk_round':
+                # one channel per query: the three together had no verdict in 130 s, separately 11-30 s each (kissat)
+                for k, c in enumerate(('red', 'green', 'blue')): add('%s/cmyk_round_%s' % (pair, c), defs, e, params=[0, 0, 0, 0, 0, k], t=t, timeout=max(timeout, 240), solvers=['kissat'], heavy=1)
+            elif e == 'h_premult' and dcs == CMYK:
+                # rgba -> cmyk: two copies of the double-precision kernel; whole pixel: no verdict in 120 s, one destination channel per query: 1-35 s
+                for k, c in enumerate(('cyan', 'magenta', 'yellow', 'black')): add('%s/premult_%s' % (pair, c), defs, e, params=[0, 0, 0, 0, 0, k + 1], t=t, timeout=max(timeout, 240), solvers=['kissat'], heavy=1)
+            elif e == 'h_premult':
+                add('%s/%s' % (pair, e[2:]), defs, e, t=t, timeout=timeout, solvers=['kissat'])
+            elif e == 'h_to_rgba' and scs == CMYK:
+                add('%s/%s' % (pair, e[2:]), defs, e, t=t, timeout=max(timeout, 240), solvers=['kissat'], heavy=1)   # two copies of the cmyk -> rgb kernel: ~30 s
+            else:
+                add('%s/%s' % (pair, e[2:]), defs, e, t=t, timeout=timeout)
     # ---------------------------------------------------------------- 8-bit: every ordered pair of pixel types
     t8 = types('8')
+    # rgb8 -> cmyk8 views: two of the four pixel positions per view law in the quick tier (the other 15 colour-space pairs cover all four
+    # positions in the quick tier), all four in thorough
+    qpos = dict(ccv=(seed % 4, (seed + 3) % 4), ccp=((seed + 1) % 4, (seed + 2) % 4))
     for (sn, scs, sp, scan) in t8:
         for (dn, dcs, dp, dcan) in t8:
             defs = dict(SRC_P=sp, DST_P=dp, SRC_CS=scs, DST_CS=dcs)
             pair = '%s_to_%s' % (sn, dn)
-            for e in entries(scs, dcs):
-                if e == 'h_lum_mono':
-                    for k, c in enumerate(('red', 'green', 'blue')): add('%s/lum_mono_%s' % (pair, c), defs, e, params=[0, 0, 0, 0, 0, k])
-                elif e == 'h_cmyk_round':
-                    # one channel per query: the three together had no verdict in 130 s, separately 11-14 s each (kissat)
-                    for k, c in enumerate(('red', 'green', 'blue')): add('%s/cmyk_round_%s' % (pair, c), defs, e, params=[0, 0, 0, 0, 0, k], timeout=240, solvers=['kissat'])
-                else:
-                    add('%s/%s' % (pair, e[2:]), defs, e)
+            laws(pair, defs, scs, dcs)
             # view agreement: canonical layouts in the quick tier, the other layouts in thorough
             vt = 'quick' if (scan and dcan) else 'thorough'
-            views(pair, defs, scs, dcs, vt)
+            views(pair, defs, scs, dcs, vt, qpos)
     # planar sources
+    strata8 = list(dict.fromkeys([0x00, 0xFF, 0x80, ((seed + 1) * 40503 >> 3) & 0xFF]))
     for (sn, scs, sp) in (('rgb8', RGB, ptype('rgb', '8')), ('rgba8', RGBA, ptype('rgba', '8')), ('cmyk8', CMYK, ptype('cmyk', '8'))):
         for (dn, dcs, dp, dcan) in t8:
             if not dcan: continue
             defs = dict(SRC_P=sp, DST_P=dp, SRC_CS=scs, DST_CS=dcs, VIEW_PLANAR=1)
             vt = 'quick' if (scs == RGB or dcs == GRAY) else 'thorough'
-            views('planar_%s_to_%s' % (sn, dn), defs, scs, dcs, vt)
+            pair = 'planar_%s_to_%s' % (sn, dn)
+            if scs == RGBA and dcs == GRAY:
+                # copy_and_convert_pixels from planar rgba: the compiler commutes the operands of the alpha multiplications in the library's loop, the
+                # miter then contains multiplier commutativity (no verdict in 240 s).  Stratified: alpha of every source pixel concrete per query.
+                add('%s/ccv' % pair, defs, 'h_ccv', t=vt, timeout=240, solvers=['kissat'])
+                for a in strata8:
+                    add('%s/ccp/alpha%02x' % (pair, a), defs, 'h_ccp', params=[8, 0, 0, 0, a, 0], t=vt, timeout=240, solvers=['kissat'], note='stratified: source alpha concrete')
+            else:
+                views(pair, defs, scs, dcs, vt, qpos)
+    # ---------------------------------------------------------------- thorough: 16-bit and float32 channels, mixed depths (canonical layouts)
+    for (sd, dd) in (('16', '16'), ('32f', '32f'), ('8', '16'), ('16', '8'), ('8', '32f'), ('32f', '8'), ('16', '32f'), ('32f', '16')):
+        for (sn, scs, sp, _) in types(sd, True):
+            for (dn, dcs, dp, _) in types(dd, True):
+                defs = dict(SRC_P=sp, DST_P=dp, SRC_CS=scs, DST_CS=dcs)
+                pair = '%s_to_%s' % (sn, dn)
+                for e in entries(scs, dcs):
+                    if e == 'h_gray_diag' and sd != '8': continue          # claimed for 8-bit sources only
+                    if e in ('h_lum_mono', 'h_lum_unit') and sd == '32f': continue    # float sources: even the spot checks below had no verdict in 300 s -> outside
+                    if e == 'h_cmyk_round' and sd != dd: continue                       # round trip: same depth on both sides
+                    if e in ('h_lum_mono', 'h_lum_unit') and sd != '8':
+                        # generic float luminance path (x/max, three float multiplications, two additions, *max+0.5): no verdict in 150 s with all three
+                        # channels symbolic, nor with two channels concrete and 16 symbolic bits in the third.  Spot checks only: two channels concrete,
+                        # the third with its upper byte concrete (8 symbolic bits)
+                        cases = [(k, hb, c1, c2) for k in range(3) for (hb, c1, c2) in ((0x00, 0, 0), (0xFF, 65535, 65535), (0x80, 40000 + seed % 1000, 65535), ((seed * 37 + 11) % 256, 1, 32768))]
+                        for (k, hb, c1, c2) in cases:
+                            others = [i for i in range(3) if i != k]
+                            pr = [1 << k, 0, 0, 0, 0, k if e == 'h_lum_mono' else 0, (1 << others[0]) | (1 << others[1])]
+                            pr[1 + k] = hb; pr[1 + others[0]] = c1; pr[1 + others[1]] = c2
+                            add('%s/%s/ch%d_%x_%x_%x' % (pair, e[2:], k, hb, c1, c2), defs, e, params=pr, t='thorough', timeout=300, solvers=['kissat'],
+                                note='spot check: two channels concrete, the third stratified; the law over the full value space is outside the claim')
+                        continue
+                    if e == 'h_lum_mono':
+                        for k, c in enumerate(('red', 'green', 'blue')): add('%s/lum_mono_%s' % (pair, c), defs, e, params=[0, 0, 0, 0, 0, k], t='thorough', timeout=300)
+                    elif e == 'h_cmyk_round':
+                        for k, c in enumerate(('red', 'green', 'blue')): add('%s/cmyk_round_%s' % (pair, c), defs, e, params=[0, 0, 0, 0, 0, k], t='thorough', timeout=600, solvers=['kissat'], heavy=1)
+                    elif e == 'h_premult' and dcs == CMYK:
+                        for k, c in enumerate(('cyan', 'magenta', 'yellow', 'black')): add('%s/premult_%s' % (pair, c), defs, e, params=[0, 0, 0, 0, 0, k + 1], t='thorough', timeout=600, solvers=['kissat'], heavy=1)
+                    elif e == 'h_premult':
+                        add('%s/%s' % (pair, e[2:]), defs, e, t='thorough', timeout=600, solvers=['kissat'], heavy=1)
+                    else:
+                        add('%s/%s' % (pair, e[2:]), defs, e, t='thorough', timeout=300)
+                # views of deeper channels: data-movement pairs only (the float luminance / 16-bit cmyk miters had no verdict in 240 s; the plumbing is depth-independent)
+                if sd == dd and (scs, dcs) in ((GRAY, RGBA), (RGBA, RGBA), (RGB, RGB)):
+                    views(pair, defs, scs, dcs, 'thorough', qpos)
+    qs.sort(key=lambda q: -q.heavy)      # long queries first so that they overlap with the many short ones
     return qs
